@@ -379,6 +379,10 @@ pub fn run(tier: Tier) -> i32 {
     };
 
     cases.par_chunks(256).for_each(|chunk| {
+        // every chunk is evaluated on a thread that has just evaluated - and failed on - a program
+        // whose constants carry the names of the prologue with other values: the value of an
+        // expression is a function of the program it stands in
+        let _ = crate::sut::build_str(".equ k_five = 2 + 2\n.equ k_sum = k_five * 9\n.equ dbl0 = 3 + 0\n.equ dbl1 = dbl0 + dbl0\n.equ K_Neg = 1 - 8\n.equ k_late = k_sum - 1\n.dseg\nlbl_a: .byte 7\n.cseg\n.dq dbl1 + k_sum + K_Neg + k_late + lbl_a\n.equ k_chain = k_sum / (k_five - 4)\n.dq k_chain\n");
         let mut packed: Vec<(usize, BCase)> = vec![];
         let mut texts = vec![];
         for (i, c) in chunk.iter().enumerate() {
